@@ -40,6 +40,7 @@ func TestC12Fp25519API(t *testing.T) {
 		Modp: fp25519.Modp, AddSub: fp25519.AddSub, Cmov: fp25519.Cmov, Cswap: fp25519.Cswap, InvSqrt: fp25519.InvSqrt,
 		IsZero: fp25519.IsZero, ToBytes: fp25519.ToBytes, SetOne: fp25519.SetOne,
 	}}
+	kit.SweepPredicates(t, &kit.Preds[fp25519.Elt]{F: ty.F, Type: "fp25519", Backend: be[0].Backend, From: ty.From, IsZero: fp25519.IsZero})
 	vlib.Check(t, vlib.N(30000, 150000), func(t *rapid.T) { kit.CheckElt(t, ty, be) })
 }
 
@@ -63,6 +64,7 @@ func TestC12Fp448API(t *testing.T) {
 		Modp: fp448.Modp, AddSub: fp448.AddSub, Cmov: fp448.Cmov, Cswap: fp448.Cswap, InvSqrt: fp448.InvSqrt,
 		IsZero: fp448.IsZero, IsOne: fp448.IsOne, ToBytes: fp448.ToBytes, SetOne: fp448.SetOne,
 	}}
+	kit.SweepPredicates(t, &kit.Preds[fp448.Elt]{F: ty.F, Type: "fp448", Backend: be[0].Backend, From: ty.From, IsZero: fp448.IsZero, IsOne: fp448.IsOne})
 	vlib.Check(t, vlib.N(30000, 150000), func(t *rapid.T) { kit.CheckElt(t, ty, be) })
 }
 
